@@ -5,6 +5,7 @@ import (
 	"math/rand"
 	"regexp"
 	"strings"
+	"time"
 
 	"github.com/influxdata/influxql"
 )
@@ -39,6 +40,15 @@ func stmtRandGap(r *rand.Rand) string {
 
 // reLayout replaces every WS token of text by a fresh gap.
 func reLayout(r *rand.Rand, text string) (string, bool) {
+	type res struct {
+		s  string
+		ok bool
+	}
+	v := guard(5*time.Second, res{}, func() res { s, ok := reLayout0(r, text); return res{s, ok} })
+	return v.s, v.ok
+}
+
+func reLayout0(r *rand.Rand, text string) (string, bool) {
 	sc := influxql.NewScanner(strings.NewReader(text))
 	var b strings.Builder
 	rs := []rune(text)
@@ -67,6 +77,10 @@ func reLayout(r *rand.Rand, text string) (string, bool) {
 // long as the query still parses to the same statements (a blank is not allowed everywhere: `f (x)`,
 // `a ::float`, `db. rp`). All gaps at once first; if that changes the parse, gap by gap.
 func spreadOut(text string) string {
+	return guard(20*time.Second, text, func() string { return spreadOut0(text) })
+}
+
+func spreadOut0(text string) string {
 	want, err := queryDump(text)
 	if err != nil {
 		return text
@@ -113,6 +127,10 @@ var reLeaf = regexp.MustCompile(`\(re s:([0-9a-f,]*)\)`)
 // space or a comment opener inside: the plain scanner, which finds the token boundaries for the
 // re-layout, would cut such a literal into several tokens.
 func regexWithLayout(text string) bool {
+	return guard(10*time.Second, true, func() bool { return regexWithLayout0(text) })
+}
+
+func regexWithLayout0(text string) bool {
 	d, err := queryDump(text)
 	if err != nil {
 		return true
